@@ -260,6 +260,18 @@ func vmFieldCoverage(w *World, fn *ssa.Function, ct *Contract) []*Obligation {
 var pureGenCache []*Obligation
 
 func genPure(w *World) []*Obligation {
+	var out []*Obligation
+	for _, o := range genPureAll(w) {
+		if strings.HasSuffix(o.Name, "/frame:pure") || strings.HasSuffix(o.Name, "/pre-sat") {
+			out = append(out, o)
+		}
+	}
+	return out
+}
+
+// genPureAll: every obligation of the vm helpers under a `pure` contract
+// (frame, vacuity guards, and the ensures clauses where the contract has any).
+func genPureAll(w *World) []*Obligation {
 	if pureGenCache != nil {
 		return pureGenCache
 	}
@@ -287,11 +299,7 @@ func genPure(w *World) []*Obligation {
 		w.forceInline[n] = true
 		e.VerifyFunc(fn, w.Contracts[n], nil)
 		delete(w.forceInline, n)
-		for _, o := range e.obls {
-			if strings.HasSuffix(o.Name, "/frame:pure") || strings.HasSuffix(o.Name, "/pre-sat") {
-				out = append(out, o)
-			}
-		}
+		out = append(out, e.obls...)
 	}
 	for k := range w.forceInline {
 		if !saved[k] {
